@@ -653,7 +653,7 @@ impl Sim {
     }
 
     /// Consume up to `n` SQEs in ring order (K1).
-    fn submit(&mut self, n: u32) -> u32 {
+    pub fn submit(&mut self, n: u32) -> u32 {
         let mut done = 0;
         while done < n {
             let head = self.sq_head();
